@@ -216,7 +216,10 @@ def run_long_line_case(case, ctx):
     pw_, pe_ = rnd.choice(['**', '^']), rnd.choice([2, 3])
     # (several power terms after prefixes of different lengths: the wrap position relative to `**` varies from case to case)
     pterms = ''.join(f" - 0.001*{rnd.choice(names_)}*({rnd.choice(names_)}*x + {round(rnd.uniform(0.1, 0.9), rnd.randint(1, 4))}*z){pw_}{pe_}" for _ in range(rnd.randint(1, 3)))
-    eqs = [f"x' = -x*{n1}{pad} + {cf[0]}*{sm[0]}*{n1}*sin({cf[1]}*{sm[1]}*x*{n2}*cos({cf[2]}*{sm[2]}*z*{n3})) - 0.01*({n2}*x + {n3}*z - tanh({n1}*x)){pw_}{pe_}*{n3}{pterms}",
+    # a power followed by a long pure product (no + or - for more than a line): after a break in front of `**` the next break has
+    # only `*` to choose from
+    prodterm = f" - 0.001*(x*{n1} + z){pw_}{pe_}*{n1}*{n2}*{n3}*tanh({n1}*{n2}*{n3}*x*z*{n2}*{n1}*{n3}*{n2})"
+    eqs = [f"x' = -x*{n1}{pad}{prodterm} + {cf[0]}*{sm[0]}*{n1}*sin({cf[1]}*{sm[1]}*x*{n2}*cos({cf[2]}*{sm[2]}*z*{n3})) - 0.01*({n2}*x + {n3}*z - tanh({n1}*x)){pw_}{pe_}*{n3}{pterms}",
            f"z' = -z*{n2} + {n3}*tanh({n1}*x*{n2} + {cf[0]}*{sm[0]}*z*{n3}*{n1})*{n2}"]
     x0, z0 = round(rnd.uniform(-1, 1), 3), round(rnd.uniform(-1, 1), 3)
     res = {'features': [b, 'long_lines'], 'risk': [], 'sig': stable_hash([eqs, b, x0, z0, vals_]), 'nontrivial': True}
@@ -228,6 +231,7 @@ def run_long_line_case(case, ctx):
             padv += float(m_.group(1)) * v[m_.group(2)] * z
         dx = -x * v[n1] + padv + cf[0] * sm[0] * v[n1] * math.sin(cf[1] * sm[1] * x * v[n2] * math.cos(cf[2] * sm[2] * z * v[n3])) \
             - 0.01 * (v[n2] * x + v[n3] * z - math.tanh(v[n1] * x)) ** pe_ * v[n3]
+        dx -= 0.001 * (x * v[n1] + z) ** pe_ * v[n1] * v[n2] * v[n3] * math.tanh(v[n1] * v[n2] * v[n3] * x * z * v[n2] * v[n1] * v[n3] * v[n2])
         for m_ in re.finditer(r" - 0\.001\*(\w+)\*\((\w+)\*x \+ ([0-9.]+)\*z\)", pterms):
             dx -= 0.001 * v[m_.group(1)] * (v[m_.group(2)] * x + float(m_.group(3)) * z) ** pe_
         dz = -z * v[n2] + v[n3] * math.tanh(v[n1] * x * v[n2] + cf[0] * sm[0] * z * v[n3] * v[n1]) * v[n2]
